@@ -5,6 +5,7 @@
            foreign and undecodable data, restarts at any point. *)
 From NG Require Import Common.Tactics Sync.Queue Sync.QueueProofs Sync.Restore Sync.RestoreProofs Sync.RestoreExamples.
 From NG Require Sync.Blocks.
+From NG Require Sync.Ledger.
 From NG Require Import Sync.Crash Sync.CrashProofs.
 Open Scope N_scope.
 
@@ -258,3 +259,62 @@ Example C20_blocks_stage_example :
   Blocks.add_block N merkle hhash s (Blocks.mkB N hd []) = None /\
   Blocks.add_block N merkle hhash s (Blocks.mkB N hd [4; 3]) = None.
 Proof. vm_compute. split; [eexists; split; reflexivity|split; reflexivity]. Qed.
+
+(* ---------- part 4: the ledger under concurrent producers (after the seventh mutation round) ---------- *)
+
+(* Blockchain.AddBlock is one critical section of the block-addition lock {compare the index with height+1; verify; store;
+   send the event}.  For EVERY sequence of such calls — any producers, any indices, any repetition — on a ledger at height h0:
+   the blocks applied are exactly h0+1 .. h0+k in this order, each once; the events are the same list; the state is the
+   reference node's at h0+k; and for every index the number of calls answered "added" is 1 if it was applied, 0 otherwise. *)
+Theorem C20_ledger_atomic_calls_once_in_order : forall (state : Type) (apply : state -> N -> state)
+  (l0 : Ledger.led state) (calls : list N),
+  Ledger.applied state l0 = [] -> Ledger.events state l0 = [] ->
+  let l := fst (Ledger.run state apply l0 calls) in let rs := snd (Ledger.run state apply l0 calls) in
+  exists k,
+    Ledger.height state l = Ledger.height state l0 + N.of_nat k /\
+    Ledger.applied state l = Ledger.down (Ledger.height state l0) k /\
+    Ledger.events state l = Ledger.applied state l /\
+    Ledger.lst state l = Ledger.ref_from state apply (Ledger.lst state l0) (Ledger.height state l0) k /\
+    NoDup (Ledger.applied state l) /\
+    (forall i, Ledger.oks calls rs i = if existsb (N.eqb i) (Ledger.applied state l) then 1%nat else 0%nat).
+Proof. exact Ledger.atomic_calls_once_in_order. Qed.
+Print Assumptions C20_ledger_atomic_calls_once_in_order.
+
+(* Concurrent producers: whatever interleaving of their call lists the lock order produces, if one of them (the queue's
+   drainer: C20_queue_in_order_once) offers h0+1 .. h0+k in order, the ledger ends at a height >= h0+k, with every block
+   applied once, in order, and in the reference node's state at that height. *)
+Theorem C20_ledger_concurrent_producers_converge : forall (state : Type) (apply : state -> N -> state)
+  (l0 : Ledger.led state) (ts : list (list N)) (calls : list N) (k : nat),
+  Ledger.applied state l0 = [] -> Ledger.events state l0 = [] ->
+  Ledger.interleave ts calls ->
+  In (Ledger.up (Ledger.height state l0) k) ts ->
+  let l := fst (Ledger.run state apply l0 calls) in
+  exists k', (k <= k')%nat /\ Ledger.height state l = Ledger.height state l0 + N.of_nat k' /\
+             Ledger.applied state l = Ledger.down (Ledger.height state l0) k' /\ Ledger.events state l = Ledger.applied state l /\
+             Ledger.lst state l = Ledger.ref_from state apply (Ledger.lst state l0) (Ledger.height state l0) k' /\
+             NoDup (Ledger.applied state l).
+Proof. exact Ledger.concurrent_producers_converge. Qed.
+Print Assumptions C20_ledger_concurrent_producers_converge.
+
+(* The premise "one section" is necessary.  Check and store in two sections: two producers with block 1 both pass the check
+   before either stores — block 1 is executed twice and the state is not the reference node's. *)
+Theorem C20_ledger_split_check_apply_refuted :
+  let s := Ledger.run2 Ledger.init2 [Ledger.ACheck 0 1; Ledger.ACheck 1 1; Ledger.AApply 0 1; Ledger.AApply 1 1] in
+  Ledger.applied _ (Ledger.l2 s) = [1; 1] /\ Ledger.lst _ (Ledger.l2 s) = [1; 1] /\
+  Ledger.lst _ (Ledger.l2 s) <> Ledger.ref_from _ Ledger.lapply [] 0 1.
+Proof. exact Ledger.split_check_apply_refuted. Qed.
+Print Assumptions C20_ledger_split_check_apply_refuted.
+
+(* ... and a producer that passed its check at height 0 stores block 1 over block 2 *)
+Theorem C20_ledger_split_stale_apply_refuted :
+  let s := Ledger.run2 Ledger.init2 [Ledger.ACheck 0 1; Ledger.ACheck 1 1; Ledger.AApply 0 1; Ledger.ACheck 2 2; Ledger.AApply 2 2; Ledger.AApply 1 1] in
+  Ledger.applied _ (Ledger.l2 s) = [1; 2; 1] /\ Ledger.height _ (Ledger.l2 s) = 1.
+Proof. exact Ledger.split_stale_apply_refuted. Qed.
+Print Assumptions C20_ledger_split_stale_apply_refuted.
+
+(* The event in a later section with the height read again: blocks 1 and 2 applied, both events say 2. *)
+Theorem C20_ledger_event_reread_refuted :
+  let s := Ledger.run2 Ledger.init2 [Ledger.ACheck 0 1; Ledger.AApply 0 1; Ledger.ACheck 1 2; Ledger.AApply 1 2; Ledger.AEvent 0; Ledger.AEvent 1] in
+  Ledger.applied _ (Ledger.l2 s) = [2; 1] /\ Ledger.events _ (Ledger.l2 s) = [2; 2].
+Proof. exact Ledger.event_reread_refuted. Qed.
+Print Assumptions C20_ledger_event_reread_refuted.
